@@ -47,9 +47,20 @@ def coeffChecks (sol : Sol) (XT : Mat) (w y : Vec) (go : Vec) : List (String × 
    ("lsq-orthogonal-residual", orth, s!"max |X^T W (y - X b)| = {ratStr (vecInf grad)}"),
    ("lsq-no-descent", noDescent, "a coordinate perturbation lowers the weighted SSE")]
 
+/-- does a Go output list contain NaN or ±Inf? (then `rats?` fails) -/
+def nonFinite (j : J) : Bool := (j.flts?).isSome && (j.rats?).isNone
+
 def handleLLS (ins outs : List J) : Verdict :=
   match ins, outs with
   | [xsJ, ysJ, wJ, xtJ], [goJ] =>
+    if nonFinite goJ then
+      (match xsJ.rats?, ysJ.rats?, xtJ.list? >>= (·.mapM J.rats?) with
+       | some xs, some ys, some XT =>
+         (match parseW wJ xs.length with
+          | some w => if (solveLS XT w ys).isSome then .fail "lsq-finite" "non-finite coefficients for a well-conditioned design" else .skip "ill-conditioned or singular design"
+          | none => .badOp "lls: weights")
+       | _, _, _ => .badOp "lls: parse")
+    else
     match xsJ.rats?, ysJ.rats?, xtJ.list? >>= (·.mapM J.rats?), goJ.rats? with
     | some xs, some ys, some XT, some go =>
       (match parseW wJ xs.length with
@@ -65,6 +76,14 @@ def handleLLS (ins outs : List J) : Verdict :=
 def handlePReg (ins outs : List J) : Verdict :=
   match ins, outs with
   | [xsJ, ysJ, wJ, dJ, evJ], [coJ, fJ] =>
+    if nonFinite coJ || nonFinite fJ then
+      (match xsJ.rats?, ysJ.rats?, dJ.nat? with
+       | some xs, some ys, some deg =>
+         (match parseW wJ xs.length with
+          | some w => if (solveLS (monomials xs deg) w ys).isSome then .fail "lsq-finite" "non-finite coefficients or values for a well-conditioned design" else .skip "ill-conditioned or singular design"
+          | none => .badOp "preg: weights")
+       | _, _, _ => .badOp "preg: parse")
+    else
     match xsJ.rats?, ysJ.rats?, dJ.nat?, evJ.rats?, coJ.rats?, fJ.rats? with
     | some xs, some ys, some deg, some ev, some co, some fv =>
       (match parseW wJ xs.length with
